@@ -97,6 +97,48 @@ fn s_nonboolean_bits() -> Scenario {
     }
 }
 
+/// S1': a non-boolean value at ONE chosen bit position j of decompose_to_bits(x, n): x = 2^(j+1) with hint bits all zero
+/// except bit j = 2 (2 * 2^j = x).  The forged circuit only swaps the hint executor; the REAL runner must refuse the
+/// execution (BoolCheck of bit j) or, if it produces traces, the real verifier must refuse the proof.  Every position is a
+/// scenario of its own: a boolean check missing for a single bit is exactly what the enumeration is for.
+fn s_nonboolean_bit_at(n: usize, j: usize) -> Scenario {
+    use p3_baby_bear::BabyBear;
+    let id: &'static str = Box::leak(format!("non-boolean-bit:n={n}:j={j}").into_boxed_str());
+    let mut b = CircuitBuilder::<F>::new();
+    let x = b.public_input();
+    let bits = b.decompose_to_bits::<BabyBear>(x, n).unwrap();
+    let five = b.define_const(f(5));
+    let y = b.mul(bits[j], five);
+    let yp = b.public_input();
+    b.connect(y, yp);
+    let c = b.build().unwrap();
+    let packing = TablePacking::new(1, 1);
+    let prep = prepare(&c, &packing).unwrap();
+    // honest baseline: x = 2^j, bit j = 1, y = 5
+    let honest = run_traces(&c, &[f(1u64 << j), f(5)], &[]).unwrap();
+    let hv = prove_verify_with(&prep, &honest, packing.clone());
+    let mut forged = c.clone();
+    let mut hint = vec![F::ZERO; n];
+    hint[j] = f(2);
+    for op in forged.ops.iter_mut() {
+        if let Op::Hint { executor, .. } = op {
+            *executor = Box::new(FixedHint { values: hint.clone() });
+        }
+    }
+    let xv = f(1u64 << (j + 1));
+    let run = run_traces(&forged, &[xv, f(10)], &[]);
+    let fv = run.as_ref().ok().map(|t| prove_verify_with(&prep, t, packing));
+    Scenario {
+        id,
+        properties: &["C12"],
+        what: "decompose_to_bits(2^(j+1), n) with the hint emitting 2 at bit j and 0 elsewhere (2 * 2^j = x); y = 5 * bit_j = 10 is exposed; nothing else is touched",
+        honest: vstr(&hv),
+        accepted: fv == Some(Verdict::Accepted),
+        forged: fv.as_ref().map(vstr).or_else(|| run.as_ref().err().map(|e| format!("runner refuses: {}", e.chars().take(100).collect::<String>()))),
+        detail: json!({"n": n, "bit": j, "x": 1u64 << (j + 1)}),
+    }
+}
+
 /// S2: bits of a non-canonical representative x + k*p, for every width n and every k it fits in.
 fn s_bits_of_x_plus_p(nbits: usize, x: u64) -> Scenario {
     use p3_baby_bear::BabyBear;
@@ -439,6 +481,22 @@ fn s_ext_coefficients_not_base() -> Scenario {
 }
 
 pub fn all() -> Vec<Scenario> {
+    // every bit position of a 3-, 8- and 30-bit decomposition (2^(j+1) must stay below the modulus)
+    let mut per_bit: Vec<Scenario> = Vec::new();
+    for (n, js) in [(3usize, (0..3).collect::<Vec<_>>()), (8, (0..8).collect()), (30, (0..29).collect())] {
+        for j in js {
+            let id = format!("non-boolean-bit:n={n}:j={j}");
+            per_bit.push(catch_unwind(AssertUnwindSafe(|| s_nonboolean_bit_at(n, j))).unwrap_or_else(|_| Scenario {
+                id: Box::leak(id.into_boxed_str()),
+                properties: &[],
+                what: "",
+                honest: "panic while constructing the scenario".into(),
+                forged: None,
+                accepted: false,
+                detail: json!({}),
+            }));
+        }
+    }
     let fs: Vec<(&str, fn() -> Scenario)> = vec![
         ("non-boolean-bits", s_nonboolean_bits),
         ("bits-of-x-plus-p:n=31", || s_bits_of_x_plus_p(31, 4)),
@@ -461,6 +519,7 @@ pub fn all() -> Vec<Scenario> {
                 detail: json!({}),
             })
         })
+        .chain(per_bit)
         .collect()
 }
 
